@@ -31,8 +31,14 @@ re-runs of the same configuration on a modified input (RexDriver.diagnose):
                            matched without sampling and every unmatched example
                            is in the extractor's final working set (it was
                            appended after the last extraction)
-  sampled-not-considered   ditto, but an unmatched example never reached the
-                           working set
+  sampled-not-considered[:trailing-newline | :nonascii-digit:U+XXXX]
+                           ditto, but an unmatched example never reached the
+                           working set: the loop's own re-check accepted it.
+                           Suffix when a returned expression accepts it with
+                           re.match but not in full ('$' before a final
+                           newline), or accepts it once [0-9] is read as the
+                           perl digit class
+                           (re-check done on the perl form)
   raises:<Type>:<cause>    extract raised
   unmatched:opts=<needed options>:chars={needed character classes}
                            anything else: greedy minimisation (drop options,
@@ -531,7 +537,12 @@ class C03(RexDriver):
             'list the input form is counted as a deviation, for the 157 '
             'strings dict and pandas forms run at the default only); '
             'thorough adds Sigma_t, L=3, triples, the rest of '
-            'the lattice) and, for the sampled path, (set of 3-5 strings, '
+            'the lattice); structured families generated from a grammar '
+            '(1-3 fragments over 7 character classes, run lengths '
+            '{0,1,2,3,4,6} differing in one or in all fragments, 2-4 strings, '
+            'one or two shapes) x 12 option points with variableLengthFrags '
+            'off/on; and, for the sampled path, (set of 4-7 strings of one '
+            'shape whose class is refined between passes, or set of 3-5 strings, '
             'Size(do_all, do_all_exceptions, max_sampled_attempts) in '
             '{1,2}^3, seed) with every sample answer explored; an evaluation '
             'is one extract/pdextract call; a case is non-trivial when at '
